@@ -433,6 +433,7 @@ func (fx *fnExec) evalIdent(name string, env *SpecEnv) SV {
 	}
 	if gpkg != nil {
 		if g, ok := gpkg.Members[name].(*ssa.Global); ok {
+			defer fx.tableFactIn(env.cur, g)
 			return fx.loadIn(env.cur, Ad{Cell: g, Typ: g.Type().(*types.Pointer).Elem()}, false)
 		}
 	}
@@ -1542,4 +1543,20 @@ func (fx *fnExec) addrConst(ad Ad) Term {
 		fx.assumps = append(fx.assumps, "(assert (not (= "+key+" 0)))")
 	}
 	return Term{key, SInt}
+}
+
+// tableFactIn: an immutable package-level table keeps its initial content in every state: stated for the heap of the
+// state a specification is read in (the code path states it at every load of the global).
+func (fx *fnExec) tableFactIn(st *State, g *ssa.Global) {
+	tb := fx.sliceTables[g]
+	if tb == nil {
+		return
+	}
+	h := fx.heap(st, tb.heap, tb.sort)
+	key := "tablefact:" + h.S + ":" + tb.ref.S
+	if fx.declared[key] {
+		return
+	}
+	fx.declared[key] = true
+	fx.assumps = append(fx.assumps, "(assert (= (select "+h.S+" "+tb.ref.S+") "+tb.content.S+"))")
 }
